@@ -86,7 +86,7 @@ func namedBasics() []*Ty {
 	}
 	lv := mk("ext.Level", "int")
 	lv.Flags["ext"] = true
-	return []*Ty{mk("MyInt", "int"), mk("MyStr", "string"), mk("MyBool", "bool"), mk("MyFloat", "float64"), lv}
+	return []*Ty{mk("MyInt", "int"), mk("MyStr", "string"), mk("MyBool", "bool"), mk("MyFloat", "float64"), lv, mk("MyU64", "uint64")}
 }
 
 // fixedDecls is the source of the named types every scenario package declares.
@@ -95,6 +95,17 @@ type MyInt int
 type MyStr string
 type MyBool bool
 type MyFloat float64
+type MyU64 uint64
+
+// MA and MB are different named map types with one underlying type.
+type MA map[string]int
+type MB map[string]int
+
+type Twin struct {
+	L MA
+	A MB
+	N int
+}
 
 type Flat struct {
 	A int
@@ -389,6 +400,7 @@ func structTys() []*Ty {
 		mk("ext2.Pt", false, "ext2"),
 		mk("Anon", false, "anon"),
 		mk("Und", false, "unexported", "localpriv"),
+		mk("Twin", false),
 		mk("Pad", false, "unexported", "localpriv"),
 		mk("ext.Win", true, "ext", "unexported", "extpriv"),
 		mk("Wins", false, "ext", "unexported", "extpriv"),
